@@ -35,7 +35,7 @@ TECHNIQUE = {
 CATEGORY = {'C08': 'fault_enumeration', 'C16': 'fault_enumeration'}
 
 # properties claimed (each has been run to exit 0 on the unchanged tree)
-CLAIMED = ['C01', 'C02', 'C03', 'C04', 'C05', 'C06', 'C07', 'C08', 'C09', 'C10', 'C11', 'C12', 'C13', 'C14', 'C15', 'C16', 'C18', 'C19', 'C20']
+CLAIMED = ['C01', 'C02', 'C03', 'C04', 'C05', 'C06', 'C07', 'C08', 'C09', 'C10', 'C11', 'C12', 'C13', 'C14', 'C15', 'C16', 'C17', 'C18', 'C19', 'C20']
 
 NOT_CLAIMED_REASON = {}
 
